@@ -5,9 +5,10 @@
 -/
 import MRB.Seq.Life
 import MRB.Seq.Run
+import MRB.Conc.Drop
 
 namespace MRB.Props.C07
-open MRB
+open MRB MRB.Conc
 
 /-- In every state reachable by a contract-respecting history (any operations, drops of any iterators in any order
     at any point, re-splits of stack buffers): the counter equals the number of live iterators, every liveness flag is
@@ -60,6 +61,51 @@ theorem C07_source_drop_protocol :
     Gen.concAcc.prodAlive = [⟨.prodAlive, .load, .acquire, false⟩] ∧ Gen.concAcc.workAlive = [⟨.workAlive, .load, .acquire, false⟩] ∧
     Gen.concAcc.consAlive = [⟨.consAlive, .load, .acquire, false⟩] :=
   ⟨rfl, rfl, rfl, rfl, rfl, rfl, rfl, rfl, rfl, rfl, rfl, rfl, rfl⟩
+
+/-- **Concurrent drops.** Two or three iterators dropped on different threads, in every interleaving of their steps (clear the
+    own flag; one atomic decrement of the live counter; free iff the decrement saw 1): the buffer is freed at most once,
+    nobody touches the buffer after it was freed, and when every drop has returned it has been freed exactly once. -/
+theorem C07_concurrent_once {hasW : Bool} {s : DropSt} (r : DropReach hasW s) :
+    s.freed ≤ 1 ∧ s.uaf = false ∧
+    ((∀ u, s.ph u = .finished ∨ s.ph u = .absent) → s.freed = 1) := by
+  have h := drop_reach_inv r
+  refine ⟨by have := h.last; omega, h.noUaf, ?_⟩
+  intro hall
+  have hc : s.count = 0 := by
+    rw [h.cnt]; unfold sumPh
+    have hP := hall .P; have hW := hall .W; have hC := hall .C
+    simp only [DropSt.ph] at hP hW hC
+    rcases hP with hP | hP <;> rcases hW with hW | hW <;> rcases hC with hC | hC <;> simp [hP, hW, hC, pending]
+  have hz := h.zeroLast hc
+  have hl : sumPh isLast s = 0 := by
+    unfold sumPh
+    have hP := hall .P; have hW := hall .W; have hC := hall .C
+    simp only [DropSt.ph] at hP hW hC
+    rcases hP with hP | hP <;> rcases hW with hW | hW <;> rcases hC with hC | hC <;> simp [hP, hW, hC, isLast]
+  omega
+
+/-- The free happens-after everything the other droppers did: at the moment a thread is entitled to free, its vector
+    clock covers the decrement (hence every earlier buffer access) of every iterator that has already been dropped — this is
+    where the AcqRel ordering of the read-modify-write is used. -/
+theorem C07_free_happens_after_all_drops {hasW : Bool} {s : DropSt} (r : DropReach hasW s) (t : Role) (ht : s.ph t = .decLast)
+    (u : Role) (hu : decremented (s.ph u) = true) : s.stamp u ≤ (s.vc t).get u := by
+  have h := drop_reach_inv r
+  exact Nat.le_trans (h.cover u hu) (h.ctrLe t (by rw [ht]; rfl) u)
+
+/-- Tie to the source for the concurrent part: the decrement is a single AcqRel read-modify-write whose *old* value decides. -/
+theorem C07_source_single_rmw : rmwAcq = true ∧ rmwRel = true ∧ rmwSingle = true := rmw_is_acqrel
+
+/-- The protocol this one replaced (defect D6, fixed): "clear own flag; read the others' flags; free if both clear" lets two
+    concurrent droppers both free. Kept as a checked witness of why one read-modify-write is needed. -/
+theorem C07_three_flag_protocol_double_frees :
+    let step (st : Bool × Bool × Nat) (a : Nat) : Bool × Bool × Nat :=
+      -- st = (flagA, flagB, freed); actions: 0 = A clears its flag, 1 = B clears its flag, 2 = A reads B's flag and frees if clear, 3 = same for B
+      match a with
+      | 0 => (false, st.2.1, st.2.2)
+      | 1 => (st.1, false, st.2.2)
+      | 2 => if st.2.1 = false then (st.1, st.2.1, st.2.2 + 1) else st
+      | _ => if st.1 = false then (st.1, st.2.1, st.2.2 + 1) else st
+    ([0, 1, 2, 3].foldl step (true, true, 0)).2.2 = 2 := by decide
 
 /-- Non-vacuity: three-stage heap buffer, drops in the order W, C, P with operations of the survivors in between. -/
 example :
